@@ -1303,7 +1303,24 @@ class CSemantics:
         The common type is a type they can both be cast to.
         """
 
-        return max([typ1, typ2], key=lambda t: self._get_rank(t, location))
+        typ = max([typ1, typ2], key=lambda t: self._get_rank(t, location))
+        other = typ1 if typ is typ2 else typ2
+        if (
+            typ.is_signed
+            and other.is_integer
+            and not other.is_signed
+            and self.context.sizeof(typ) == self.context.sizeof(other)
+        ):
+            # The signed type cannot hold all values of the unsigned type,
+            # use the unsigned version of the signed type:
+            unsigned_types = {
+                types.BasicType.INT: types.BasicType.UINT,
+                types.BasicType.LONG: types.BasicType.ULONG,
+                types.BasicType.LONGLONG: types.BasicType.ULONGLONG,
+            }
+            if typ.type_id in unsigned_types:
+                typ = types.BasicType(unsigned_types[typ.type_id])
+        return typ
 
     basic_ranks = {
         types.BasicType.LONGDOUBLE: 110,
